@@ -232,6 +232,12 @@ def prebuild():
     abi_build("quick", None, None)
     for pkg in ("intro", "schema", "stream", "plugin"):
         vlib.cargo_build(pkg)
+    # the separately compiled implementation of C11 (nightly, randomised layout); absent toolchain = the check says so itself
+    import subprocess
+    tdir = os.environ.get("CARGO_TARGET_DIR", os.path.join(HARNESS, "target"))
+    subprocess.run(["cargo", "+nightly", "build", "--offline", "-p", "plugin"], cwd=HARNESS, stdout=subprocess.PIPE, stderr=subprocess.STDOUT,
+                   env=dict(os.environ, CARGO_TARGET_DIR=tdir + "_nightly_1", CARGO_NET_OFFLINE="true",
+                            RUSTFLAGS="-Zrandomize-layout -Zlayout-seed=1 --cfg avl_savefile_verif --check-cfg cfg(avl_savefile_verif)"))
 
 # ------------------------------------------------------------------------------------------------
 # C12: schemas are faithful (impl -> spec trace validation with SchemaTrace.tla)
@@ -1030,6 +1036,44 @@ def c11(p, tier, replay):
                     if f["check"] in ("c10.args", "c10.ret", "c10.call.panic"):
                         v.report("c11." + f["check"], {"t": None}, "family %s caller v%s implementation v%s method %s :: %s" % (
                             rec["fam"], rec["i"], rec["j"], rec["method"], f["detail"][:300]), rec)
+    # ---- a SEPARATELY COMPILED implementation: the plugin cdylib built by the stable compiler and by the nightly compiler with
+    #      -Zrandomize-layout (another compiler, other struct layouts); decisions go to AbiTrace, observed values are compared
+    xnote, xlabels, xdiffer = None, [], 0
+    if not replay:
+        import subprocess
+        binp = vlib.cargo_build("abi")
+        vlib.cargo_build("plugin")
+        tdir = os.environ.get("CARGO_TARGET_DIR", os.path.join(HARNESS, "target"))
+        plugins = [("stable", os.path.join(tdir, "debug", "libplugin.so"))]
+        for lseed in ((1,) if tier == "quick" else (1, 2, 3)):
+            ndir = tdir + "_nightly_%d" % lseed
+            env = dict(os.environ, CARGO_TARGET_DIR=ndir, CARGO_NET_OFFLINE="true",
+                       RUSTFLAGS="-Zrandomize-layout -Zlayout-seed=%d --cfg avl_savefile_verif --check-cfg cfg(avl_savefile_verif)" % lseed)
+            env.pop("CARGO_BUILD_JOBS", None)
+            pr = subprocess.run(["cargo", "+nightly", "build", "--offline", "-p", "plugin"], cwd=HARNESS, env=env,
+                                stdout=subprocess.PIPE, stderr=subprocess.STDOUT, timeout=3000)
+            if pr.returncode != 0:
+                xnote = "the nightly -Zrandomize-layout build of the plugin is not available here (%s): only the stable-built cdylib was used" % \
+                    pr.stdout.decode(errors="replace").strip().splitlines()[-1][:160]
+                break
+            plugins.append(("nightly-randomized-layout-seed-%d" % lseed, os.path.join(ndir, "debug", "libplugin.so")))
+        for (label, path) in plugins:
+            xo = os.path.join(WORK, "c11_x_%s.json" % label)
+            subprocess.run([binp, "xcompile", path, label, xo], cwd=WORK, timeout=300, stdout=subprocess.PIPE, stderr=subprocess.PIPE,
+                           env=dict(os.environ, RUST_BACKTRACE="0"))
+            if not os.path.exists(xo):
+                v.report("c11.xcompile.died", {"t": None}, "the run against the %s implementation produced no result" % label, {"label": label})
+                continue
+            xlabels.append(label)
+            with open(obs, "a") as o:
+                for line in open(xo):
+                    rr = json.loads(line)
+                    if rr["kind"] == "mask":
+                        masks.append(rr)
+                        o.write(json.dumps({k: rr[k] for k in ("arg", "fam", "i", "j", "kind", "method", "passable", "sa", "sb")}) + "\n")
+                        xdiffer += 1 if rr["layout_differs"] and rr["method"] == "rust_rec" else 0
+                    else:
+                        v.report(rr["check"], {"t": None}, "%s implementation :: %s" % (label, rr["detail"][:300]), rr)
     r = vlib.run_tlc("AbiTrace.tla", "AbiTrace.cfg", "abitrace_" + tier, workers=4, timeout=1200, extra_env={"OBS": obs}, java_opts="-Xss1g")
     if r["violated"]:
         raise ToolError("AbiTrace: unexpected TLC error (see %s)" % r["out"])
@@ -1042,22 +1086,23 @@ def c11(p, tier, replay):
         if j["verdict"] == "ok-by-reference":
             byref += 1
         if not j["verdict"].startswith("ok"):
-            v.report("c11.mask", {"t": None}, "family %s caller v%s implementation v%s method %s arg %s passed by reference, schemas %s / %s" % (
-                m["fam"], m["i"], m["j"], m["method"], m["arg"], json.dumps(m["sa"])[:150], json.dumps(m["sb"])[:150]), m)
+            v.report("c11.mask", {"t": None}, "%s caller v%s implementation v%s method %s arg %s passed by reference, schemas %s / %s" % (
+                m.get("label", "family %s" % m["fam"]), m["i"], m["j"], m["method"], m["arg"], json.dumps(m["sa"])[:150], json.dumps(m["sb"])[:150]), m)
     samples = [{k: m[k] for k in ("fam", "i", "j", "method", "arg", "passable")} for m in masks if m["i"] != m["j"]][:4]
     cov = {"states": sstats["distinct"] + stats["distinct"] + r["stats"]["distinct"],
            "transitions": sstats["generated"] + stats["generated"] + r["stats"]["generated"],
            "traces_validated_against_impl": len(masks) + npairs, "evaluations": len(masks) + npairs, "distinct_nontrivial": byref + npairs,
            "rule": "schema pairs: every schema of the SchemaMC universe with itself, each single wire mutant and each single layout-annotation mutant; "
                    "connections: every (family, i, j, method, argument) of the AbiVer model; non-trivial = arguments really passed by reference, and all schema pairs",
-           "by_reference_arguments": byref, "samples": samples, "exhaustive": True,
+           "by_reference_arguments": byref, "separately_compiled_implementations": xlabels,
+           "implementations_whose_repr_rust_layout_differs_from_the_callers": xdiffer, "samples": samples, "exhaustive": True,
            "explanation": "TLC proves LayoutCompat => SameLayout and LayoutReflexive over the schema universe (sizes, alignments, offsets, discriminant width, "
                           "explicit repr, Vec/String layout, nothing unknown) and the real Schema::layout_compatible is replayed on every pair; for real connections "
                           "between interface versions the REAL get_arg_passable_by_ref decision and the REAL native schemas are recorded and TLC (AbiTrace) validates "
                           "decision => SameLayout; the AbiVer replay shows the values observed by the implementation are those of the model whichever way they travel"}
-    return v.finish("model_checking", cov, [
-        "separately compiled peers are approximated by distinct type definitions in one build; a different compiler or -Zrandomize-layout build of the "
-        "implementation is not exercised (the layout facts compared are those the running code itself records in its schemas)",
+    return v.finish("model_checking", cov, ([xnote] if xnote else []) + [
+        "separately compiled peers: distinct type definitions in one build (all interface versions) and one interface served by a cdylib that is built "
+        "by the stable compiler and by the nightly compiler with -Zrandomize-layout (quick: one layout seed, thorough: three)",
         "pointer kinds (Box, reference, slice) are transparent for the layout rule, as in the implementation: what is compared is the pointee"])
 
 
